@@ -85,6 +85,15 @@ pub fn internal<R>(f: impl FnOnce() -> R) -> R {
     r
 }
 
+/// `internal` as an enter/exit pair (for callbacks).
+pub fn internal_enter() {
+    let _ = BYPASS.try_with(|b| b.set(b.get() + 1));
+}
+
+pub fn internal_exit() {
+    let _ = BYPASS.try_with(|b| b.set(b.get().saturating_sub(1)));
+}
+
 /// Runs `f` with the profiler seeing this thread's allocations.
 #[inline]
 pub fn profiled<R>(f: impl FnOnce() -> R) -> R {
